@@ -48,6 +48,21 @@ CLAIMS.update({
  "C16": _staking("slash effects on delegations, pending unbondings (observed at payout) and accrued rewards, rejection of fractions above one and unknown validators; whole-token results accepted up to dropped sub-token remainders.", "6/C16"),
 })
 
+CLAIMS.update({
+ "C18": dict(engine="bech32", design="6/C18",
+   technique="BIP-173/350 transcribed in TLA+ (spec/Bech32.tla); TLC evaluates the algebraic properties on an enumerated input set and recomputes every logged call of the real address helpers (trace validation, spec/trace/Trace_Bech32.tla)",
+   text="An independent TLA+ transcription of Bech32/Bech32m checked by TLC for round trip, validity and rejection of every single-character substitution / case flip / other variant / other prefix on enumerated inputs, and used as the oracle for thousands of real API calls (humanize, canonicalize, validate, make, Into* conversions) on generated prefixes, byte strings, names and corruptions.",
+   note="SHA-256 uninterpreted (functional/injective on observed names); all-upper-case inputs are a named don't-care; prefixes are lower-case HRPs; BCH error detection exercised, not proved. Trusted: TLC, CommunityModules Bitwise/Json."),
+ "C19": dict(engine="twin", design="6/C19",
+   technique="TLC enumerates every interleaving of two runs of the same history (spec/Twin.tla over the Chain evaluator, invariant Agree); each schedule executed on two live Apps with byte-identical comparison at equal positions; same schedules in a second process; TLC-enumerated staking histories on two Apps under random interleavings",
+   text="Exhaustive enumeration of interleavings of two independent application instances fed the same history, with the real code required to produce byte-identical results, ids, addresses, checksums and raw storage at equal positions, to agree with the specification's Ok/Err, and to reproduce the same transcripts in a second process.",
+   note="Histories fixed in spec/mc/MC_Twin.tla plus enumerated staking histories; absence of hidden inputs observed on two instances / two processes, not proved. Trusted: TLC, std DefaultHasher for digests."),
+ "C20": dict(engine="builder", design="6/C20",
+   technique="TLC enumerates every sequence of builder steps up to MaxSteps (spec/Builder.tla: Keeps, OrderIndependent, InitOnce); each replayed on the real AppBuilder / ContractWrapper with tagged components; compile-time sequences from the real defaults",
+   text="Exhaustive enumeration of step sequences (subsets, permutations, repetitions) of both builders with the real builders required to end up with exactly the supplied components, block, storage, entry points and checksum, and to run the initialisation function once against the supplied storage.",
+   note="MaxSteps 3 (quick) / 5 (thorough); slots are normalised to tagged harness types first, real defaults covered by five fixed sequences. Trusted: TLC, Rust type system for generically typed slots."),
+})
+
 def main():
     props = [json.loads(l) for l in open(os.path.join(ROOT, "properties.jsonl"))]
     checks, na = [], []
